@@ -107,7 +107,7 @@ with loop (fuel : nat) (l : nat) (lhs : pexpr) (ts : list tok) (fl : bool) {stru
     end
   end.
 
-Definition fuel_of (ts : list tok) : nat := 60 * length ts + 60.
+Definition fuel_of (ts : list tok) : nat := 80 * length ts + 80.
 
 (* expression() on a complete token list *)
 Definition parse (ts : list tok) : option pexpr :=
